@@ -438,12 +438,15 @@ def check_model_free(ck, hcmd, scripts, label, opts, rng, ndouble):
     base = [["fail"] + s + ["end"] for s in scripts]
     outs0 = par_run_cases(ck, hcmd, base)
     jobs = []          # (script index, fail numbers)
+    nbad0 = 0
     for i, o in enumerate(outs0):
         stats["scripts"] += 1
         bad = [(j, m, c) for j, m, c in monitor(["#case"] + base[i], ["#case"] + o, non_atomic, strict_live)]
         if bad or not o or not o[-1].startswith("req="):
-            report_model_free(ck, hcmd, label, base[i], o, bad[0][1] if bad else "fault-free run incomplete",
-                              bad[0][2] if bad else "crash", opts)
+            nbad0 += 1
+            if nbad0 <= 3:
+                report_model_free(ck, hcmd, label, base[i], o, bad[0][1] if bad else "fault-free run incomplete",
+                                  bad[0][2] if bad else "crash", opts)
             continue
         n = int(re.match(r"req=(\d+)", o[-1]).group(1))
         stats["requests"] += n
